@@ -3,7 +3,8 @@
 # Applies a change to a scratch copy of /repo, confirms the pinned unit tests still pass,
 # runs the named checks against the copy (VERIF_REPO), removes the copy.
 set -u
-D=/tmp/gufo-mut-$$
+D=/tmp/gufo-mut
+rm -rf $D
 rsync -a --exclude target --exclude .git /repo/ $D/
 cleanup() { rm -rf $D; }
 trap cleanup EXIT
